@@ -80,58 +80,76 @@ theorem rtl_relayout_same_widths :
     finalColumns false (finalColumns false [17, 68]) = [17, 68] := by
   refine ⟨by decide +kernel, by decide +kernel, by decide +kernel⟩
 
-/-- Finding `collapsed-footer-line-off-by-one`.  A collapsed table with a `tfoot` and five body rows
-`a … e`, row `e` with `border-top: 4px solid red`, on pages that hold three body rows plus the repeated
-footer: the first fragment shows `a, b, c, f`.  `row_number(y, horizontal=True)` tests
-`y >= grid_height - footer_rows - 1`, so line 2 of the fragment — the line between `b` and `c`, whose
-grid entry is the null border — is taken for a footer line and shifted by `footer_rows_offset = 2` to grid
-line 4, the red line above `e` (which is on the next page): a 4px red line is painted across the page
-between `b` and `c`, whose cells were laid out with used border widths 0.  Replayed on the real
-`draw_collapsed_borders` by `py/props/c10.py` (`footer_line_replay`). -/
+/-- Regression (was the witness `footer_line_off_by_one` of finding `collapsed-footer-line-off-by-one`,
+repaired by 4d1447f).  A collapsed table with a `tfoot` and five body rows `a … e`, row `e` with
+`border-top: 4px solid red`, on pages that hold three body rows plus the repeated footer: the first
+fragment shows `a, b, c, f`.  `row_number(y, horizontal=True)` used to test
+`y >= grid_height - footer_rows - 1` and painted the red line above `e` (next page) between `b` and `c`;
+it now tests `y >= grid_height - footer_rows`: line 2 of the fragment is grid line 2 (the null border)
+and nothing is painted. -/
 def footerFragment : BorderDraw.DrawIn :=
   let e0 : Borders.Edge := Borders.weakNull
   let red : Borders.Edge := ⟨⟨0, 4, Borders.styleRank .solid⟩, ⟨.solid, 4, 1⟩⟩
   ⟨[10, 10, 10, 10], [0, 10, 20, 30], [10], [0], 0, 1, 0, false, false,
    List.replicate 6 [e0, e0], [[e0], [e0], [e0], [e0], [red], [e0], [e0]]⟩
 
-theorem footer_line_off_by_one :
-    -- line 2 of the fragment lies between two body rows of the fragment (rows 1 and 2 of 3) …
-    BorderDraw.rowNumber footerFragment 2 true = 4 ∧
-    -- … and what is painted is one red segment at y = 20 (between `b` and `c`)
-    (BorderDraw.segments footerFragment).map (·.map (fun s => (s.style, s.width, s.color, s.y))) =
-      .ok [(.solid, 4, 1, 20)] := by
-  constructor <;> decide +kernel
+theorem footer_line_repaired :
+    BorderDraw.rowNumber footerFragment 2 true = 2 ∧
+    BorderDraw.rowNumber footerFragment 3 true = 5 ∧      -- the footer's top line is still the footer's
+    BorderDraw.segments footerFragment = .ok [] := by
+  refine ⟨by decide +kernel, by decide +kernel, by decide +kernel⟩
 
-/-- The full statement of `C10Draw.painted_body_lines_partial` (every line between two body rows of a
-fragment shows the grid line between those rows) is false of the code. -/
-theorem painted_body_lines_full_false :
-    ¬ (∀ (d : BorderDraw.DrawIn) (y : Int), (d.headerRows : Int) < y →
-        y < (BorderDraw.gridHeight d : Int) - d.footerRows →
-        BorderDraw.rowNumber d y true = y + BorderDraw.bodyOffset d) := by
-  intro h
-  have := h footerFragment 2 (by decide) (by decide)
-  revert this
-  decide +kernel
+/-- Regression: the statement the witness `painted_body_lines_full_false` used to refute now holds
+(`C10Draw.painted_body_lines`). -/
+theorem painted_body_lines_full (d : BorderDraw.DrawIn) (y : Int) (h1 : (d.headerRows : Int) < y)
+    (h2 : y < (BorderDraw.gridHeight d : Int) - d.footerRows) :
+    BorderDraw.rowNumber d y true = y + BorderDraw.bodyOffset d :=
+  C10Draw.painted_body_lines d y h1 (Or.inl h2)
 
-/-- Finding `collapsed-dropped-header-shifts-borders`.  A collapsed table whose `thead` (one row `h`,
-55px high) does not fit on the 60px page together with a body row: `all_groups_layout` drops the header
-("Header too big for the page") and the first fragment shows the body rows `a, b, c` — grid rows 1, 2, 3.
-`table_layout` still records `skipped_rows = 0` for a first fragment (`SplitBorders.skippedRows none _ = 0`),
-so `draw_collapsed_borders` paints fragment row `k` with grid row `k`: the 4px red line above `b`
-(grid line 2, reserved by the layout between `a` and `b`, y = 12) is painted at fragment line 2,
-y = 24, between `b` and `c`.  Replayed on the real code by `py/props/c10.py` (`dropped_header_replay`). -/
+/-- Regression (was the witness `dropped_header_shift` of finding
+`collapsed-dropped-header-shifts-borders`, repaired by 02afb22).  A collapsed table whose `thead` (one
+row `h`, 55px high) does not fit on the 60px page together with a body row: the header is dropped and
+the first fragment shows `a, b, c` — grid rows 1, 2, 3.  `table_layout` now stores
+`skipped_rows = len(header rows) = 1` on that fragment (`SplitBorders.finalSkippedRows`), so the 4px red
+line above `b` (grid line 2) is painted at fragment line 1, y = 12, where the layout reserved it (it
+used to be painted at y = 24, under `b`). -/
 def droppedHeaderFragment : BorderDraw.DrawIn :=
   let e0 : Borders.Edge := Borders.weakNull
   let red : Borders.Edge := ⟨⟨0, 4, Borders.styleRank .solid⟩, ⟨.solid, 4, 1⟩⟩
-  ⟨[12, 12, 10], [0, 12, 24], [10], [0], 0, 0, 0, false, false,
-   List.replicate 4 [e0, e0], [[e0], [e0], [red], [e0], [e0]]⟩
+  ⟨[12, 12, 10], [0, 12, 24], [10], [0], 0, 0, SplitBorders.finalSkippedRows none [1, 3] true false,
+   false, false, List.replicate 4 [e0, e0], [[e0], [e0], [red], [e0], [e0]]⟩
 
-theorem dropped_header_shift :
-    (∀ lens, SplitBorders.skippedRows none lens = 0) ∧
-    BorderDraw.rowNumber droppedHeaderFragment 1 true = 1 ∧
+theorem dropped_header_repaired :
+    SplitBorders.finalSkippedRows none [1, 3] true false = 1 ∧
+    BorderDraw.rowNumber droppedHeaderFragment 1 true = 2 ∧
     (BorderDraw.segments droppedHeaderFragment).map (·.map (fun s => (s.style, s.width, s.color, s.y))) =
-      .ok [(.solid, 4, 1, 24)] := by
-  refine ⟨fun _ => rfl, by decide +kernel, by decide +kernel⟩
+      .ok [(.solid, 4, 1, 12)] := by
+  refine ⟨rfl, by decide +kernel, by decide +kernel⟩
+
+/-- Finding `collapsed-dropped-header-top-border`.  `table_layout` recomputes the top border of a
+fragment (`horizontal_borders[skipped_rows] / 2`) only `if not split_cells and not has_header`, and
+`has_header` means *declared*: when the `thead` does not fit and is dropped, every fragment keeps the
+top border of the header's top line.  `thead` with border 0, body cells `border: 4px solid red`, header
+dropped: 0 is reserved above the first row (`before`), while the line painted at the top of the first
+fragment is grid line 1 (under the dropped header), 4px wide, centred on the row's top edge y = 0: half
+of it lies outside the table box.  Replayed on the real code by `py/props/c10.py`
+(`dropped_header_top_replay`). -/
+def droppedHeaderTopFragment : BorderDraw.DrawIn :=
+  let e0 : Borders.Edge := Borders.weakNull
+  let red : Borders.Edge := ⟨⟨0, 4, Borders.styleRank .solid⟩, ⟨.solid, 4, 1⟩⟩
+  ⟨[14, 14], [0, 14], [10], [0], 0, 0, 1, false, false,
+   [[e0, e0], [red, red], [red, red]], [[e0], [red], [red], [red]]⟩
+
+theorem dropped_header_top_border :
+    (∀ skip lens hw before, SplitBorders.borderTop skip lens true hw before = .ok before) ∧
+    SplitBorders.borderTop none [3] false [[0], [4], [4], [4]] 0 = .ok 0 ∧   -- what a header-less table reserves
+    SplitBorders.borderTop (some (0, some (1, false))) [3] false [[0], [4], [4], [4]] 0 = .ok 2 ∧
+    BorderDraw.rowNumber droppedHeaderTopFragment 0 true = 1 ∧
+    ((BorderDraw.segments droppedHeaderTopFragment).map
+      (·.filterMap (fun s => if s.side = .top ∧ s.y = 0 then some s.width else none))) = .ok [4] := by
+  refine ⟨?_, by decide +kernel, by decide +kernel, by decide +kernel, by decide +kernel⟩
+  intro skip lens hw before
+  simp [SplitBorders.borderTop]
 
 /-- Finding `collapsed-rtl-clipped-grid`.  `direction: rtl; table-layout: fixed`, first row `<td>a</td>`,
 second row `<td style="border:5px solid red">b</td><td>c</td>`: the fixed layout keeps one column (the
